@@ -412,6 +412,18 @@ def sg_rule(rng, g, pg, egress, width):
         rule["CidrIpv6"] = v6net(r, min(128, width * 4) if width is not None else r.choice([128, 64, 32, 8, 0]))
     else:
         rule["DestinationSecurityGroupId" if egress else "SourceSecurityGroupId"] = g.s(1)
+    if r.random() < 0.15:
+        # the dual-stack idiom: the alternative sources are ALL written, each behind a condition that leaves exactly one of them after
+        # resolution (seeded change C05-r6Dm1: a validator counting the fields that "are not None" at parse time refused the template)
+        c = g.cname()
+        v4 = v4net(r, width if width is not None else r.choice([32, 24, 16, 0]))
+        v6 = v6net(r, min(128, width * 4) if width is not None else r.choice([128, 64, 0]))
+        for k2 in ("CidrIp", "CidrIpv6", "DestinationSecurityGroupId", "SourceSecurityGroupId", "SourcePrefixListId", "DestinationPrefixListId"):
+            rule.pop(k2, None)
+        rule["CidrIp"] = {"Fn::If": [c, v4, copy.deepcopy(NOVALUE)]}
+        rule["CidrIpv6"] = {"Fn::If": [c, copy.deepcopy(NOVALUE), v6]}
+        if r.random() < 0.3:
+            rule["DestinationSecurityGroupId" if egress else "SourceSecurityGroupId"] = {"Fn::If": [c, copy.deepcopy(NOVALUE), copy.deepcopy(NOVALUE)]}
     if r.random() < 0.3:
         rule["Description"] = pg.opt(g.s(1))
     return rule
